@@ -17,6 +17,7 @@ func init() {
 
 func runC12(c *Ctx) {
 	L := c.L
+	c.checkConfigWriters("container-config")
 	L.Rule("alphabet-wildcard", "an alphabet-specific constant (ALL_AMINO/ALL_NUCLE, resolved through go/types) is used only where the controlling alphabet comparisons select its own alphabet")
 	L.Rule("lowercase-wildcard", "the lower-case wildcard is unicode.ToLower of the value merged after the alphabet selection (both constants reach it), not of a single constant")
 	L.Rule("ignore-test", "truth table of the ignore logic over the atoms {ignoreGaps, ignoreNs, residue == GAP, residue == wildcard, residue == lower-case wildcard}: the block that counts a residue is reached exactly when not((ignoreGaps and gap) or (ignoreNs and wildcard in either case)), for all 16 combinations, whatever statement form expresses it")
